@@ -93,7 +93,7 @@ Proof.
     + intros Ho i Hi. replace (0 <? qsize lg) with true by lia.
       transitivity (getu lg i); [reflexivity|]. apply (inv_clean _ _ lg Il Ho). exact Hi.
     + intros _. destruct (cleared_ok sq ow sm Is ltac:(lia)) as (J1&J2&J3&J4&J5). destruct ow.
-      * split; [exact J3|]. intros _ i Hi.
+      * split; [unfold qsize in J3, Sm; congruence|]. intros _ i Hi.
         assert (Hh : head (clear_window sm (cnt sm)) < qsize (clear_window sm (cnt sm)))
           by (apply (inv_head _ _ _ J1); lia).
         rewrite nth_arr_getu by lia. apply (J5 eq_refl). apply intern_extern; lia.
@@ -376,7 +376,7 @@ End Two.
 
 (* ------------------------------------------------------------------ the un-repaired self-AddHeadMulti *)
 
-(* Finding F15: before the repair a.AddHeadMulti(a, 0, n) with enough unused slots ran the AddHead loop
+(* Finding F36: before the repair a.AddHeadMulti(a, 0, n) with enough unused slots ran the AddHead loop
    on the queue it was reading from.  The faithful model of that loop violates the ideal semantics
    (the result even depends on the capacity): {1,2,3} in 10 slots becomes 1 1 3 1 2 3. *)
 Theorem add_head_multi_self_old_refuted : exists q start num,
